@@ -8,8 +8,8 @@ CC_PROPS = ["C01", "C02", "C05", "C06", "C08", "C09", "C11", "C12", "C13", "C14"
 
 TIERS = {
     # universe -> MaxEqs
-    "quick": {"U1": 2, "U2": 2, "U3": 2, "U4": 2},
-    "thorough": {"U1": 3, "U2": 3, "U3": 3, "U4": 3},
+    "quick": {"U1": 2, "U2": 2, "U3": 2, "U4": 2, "U5": 2, "U6": 2},
+    "thorough": {"U1": 3, "U2": 3, "U3": 3, "U4": 3, "U5": 3, "U6": 3},
 }
 
 
@@ -36,7 +36,7 @@ def _one_table(u, uni, maxeqs, tag, pool_delta, workers):
 
 
 def cc_tables(tier, tag, pool_delta=0, with_random=True):
-    """run TLC on every universe of the tier (hand-written U1..U4 plus seeded random ones);
+    """run TLC on every universe of the tier (hand-written U1..U6 plus seeded random ones);
     returns {uname: (uni, table_path, stats, states, universe_path)}"""
     import concurrent.futures
     out = {}
@@ -218,6 +218,9 @@ def run_cc(prop, tier):
         extra_cov = {"constant_folding": {"tlc_trace": st2, "recorder": summ2, "dumps_checked": ndumps,
                                           "what": "ConstFold analysis (modify hook adds the literal) on recorded rewriting runs of language A: datum = least "
                                                   "fixpoint of make over the dumped e-nodes, class with a value contains the literal, value = model value"}}
+    if prop in ("C08", "C12"):
+        import egop
+        extra_cov = dict(extra_cov, operational_model=egop.run_tier(tier, tables, prop))
     others = {}
     for f in findings:
         if f["prop"] != prop:
